@@ -33,12 +33,43 @@ META = {
                   "of _verify_patch, of the v4 record names and of bundle contents as revision sets over Lib/Dag; "
                   "byte-exact correspondence of the codec with the real code; generated real histories bundled, installed, "
                   "merged and tampered with in formats 4 / 0.9 / 0.8"),
-    "level_text": "filled in by notes/C40.md",
-    "level_note": "see notes/C40.md",
+    "level_text": ("Proved for all inputs of the model: from_lines(to_lines(d)) = d for every MergeDirective2 satisfying the "
+                   "executable guard dir_ok (all field values, unbounded lengths; the RIO-patch wrapping/unwrapping of bzrformats is "
+                   "part of the model and of the proof), with a machine-checked witness for every excluded class (CR at a line end, "
+                   "backslash cut by the 68-column wrap, negative non-whole-hour timezone, sub-second time, patch line "
+                   "'# Begin bundle'); parse_patch_date(format_patch_date) round trip on its domain and its refutation for -0330; "
+                   "_verify_patch detects every difference outside blanks/line ends (so every changed non-blank byte) and provably "
+                   "accepts blank-only changes; v4 record names decode back unless a later name starts with '/' or an inner one is "
+                   "empty; a bundle record with a changed text is refused over an abstract collision-free hash; installing "
+                   "bundle(src, base, tgt) into a repository holding the base's ancestry equals fetch as a finite map (P-spec over "
+                   "Lib/Dag, abstract payload). The hand model is tied to the real code byte for byte; payload equality "
+                   "(testaments, texts, metadata, graphs) and bundle-merge = branch-merge are checked on generated real histories."),
+    "level_note": ("Trusted: Coq kernel, vm_compute, the hand models' correspondence (exhaustive small domains + seeded sampling), the "
+                   "environment models of bzrformats rio/rio_patch, Python bytes.splitlines/rstrip/re.sub/re.split and chrono's "
+                   "%Y-%m-%d %H:%M:%S (years 0..9999). The text-level round trip (reading from a file) is correspondence-only "
+                   "(_partial). Bundle payloads are abstract in Coq: equality of what is installed is an oracle on real "
+                   "repositories (formats 4 / 0.9 / 0.8; 2a, pack-0.92, 1.14-rich-root). MergeDirective format 1 parsing and the "
+                   "compiled reader's look-ahead on CRLF-damaged input are not modelled."),
     "design_ref": "DESIGN.md §5 C40",
-    "trusted_base": ["hand model coq/Model/Directive.v and coq/Model/BundleSet.v", "correspondence harness harness/props/c40.py"],
-    "assumptions": [],
-    "rule": "see notes/C40.md",
+    "trusted_base": ["hand models coq/Model/Directive.v and coq/Model/BundleSet.v",
+                     "correspondence harness harness/props/c40.py + harness/props/_c40_hist.py",
+                     "coq/Model/OsUtils.v calendar functions (fmt_fields, parse_dt) shared with C47"],
+    "assumptions": ["bzrformats rio.Stanza(**kw) sorts its keys, Stanza.to_lines / read_stanza (trim_newline) behave as modelled (validated by the run)",
+                    "bzrformats rio_patch.to_patch_lines / read_patch_stanza behave as modelled on the writer's image and clean LF-terminated input (validated byte for byte); the reader consumes the iterator exactly up to the blank line",
+                    "field values are valid UTF-8 (Python str); models work on the UTF-8 bytes",
+                    "bytes.splitlines(True), bytes.rstrip, re.sub(b'\\r\\n?'), re.sub(b' *\\n'), re.split(b'(//?)') as modelled (validated by the run)",
+                    "chrono %Y-%m-%d %H:%M:%S formatting/parsing = proleptic Gregorian calendar, canonical widths, years 0..9999; parse_patch_date's regex is more lenient than the canonical shape modelled",
+                    "C40_record_tamper_detected: H is collision-free on the two compared texts (hypothesis of the statement)",
+                    "C40_install_eq_fetch: what a repository stores for a revision is a function of the source (abstract payload); Repository.fetch adds exactly the missing present ancestors"],
+    "rule": ("codec: corpus of finding witnesses and guard edges; ALL stanza values over {a,SP,LF,CR,backslash} up to length 3 (4 thorough); "
+             "every line length around the 68-column wrap x break character x distance from the cut; generated directives (unicode, "
+             "newlines, long lines, odd timezones, year boundaries, binary/CRLF/marker-like patches, base64 bundles) with to_lines compared "
+             "byte for byte and from_lines on the list and on the joined text; single-byte tampering of the payload; date grid; "
+             "perturbed _verify_patch pairs; all record-name combinations over an id pool. histories: seeded graphs (merges, ghosts, "
+             "extra roots) materialised through a working tree with adds/modifies/exec/moves/removes of files, directories and symlinks, "
+             "non-ASCII and odd names, binary contents, unicode metadata; every ancestor (base,target) pair + a non-ancestor base in "
+             "random order, formats 4/0.9/0.8; merges through five directive modes; single-byte tampering of bundle texts. "
+             "non-trivial = message/patch present, continuation lines, > 1 bundled revision"),
 }
 
 EXPECTED = ("ValueError", "KeyError", "TypeError", "AttributeError", "UnicodeEncodeError", "NoMergeSource",
@@ -319,7 +350,7 @@ def _codec_cases(rng, tier):
 def _hist_cases(rng, tier):
     from props import _c40_hist as H
     quick = tier == "quick"
-    nh = 7 if quick else 36
+    nh = 7 if quick else 18
     for hi in range(nh):
         fmt = rng.choice(["2a", "2a", "2a", "pack-0.92", "pack-0.92"] + ([] if quick else ["1.14-rich-root"]))
         n = rng.choice([5, 7, 9] if quick else [5, 8, 10, 13])      # > 10 revisions: RevisionInstaller's LRUCache(10)
@@ -339,7 +370,7 @@ def _hist_cases(rng, tier):
         rng.shuffle(pairs)
         has_ghost = any(p >= n for ps in g for p in ps)
         bfmts = ["4", "4", "0.9"] if fmt != "pack-0.92" else ["4", "0.9", "0.9", "0.8"]
-        for base, tgt in pairs[: (10 if quick else 40)]:
+        for base, tgt in pairs[: (10 if quick else 28)]:
             bfmt = rng.choice(bfmts)
             if has_ghost and bfmt != "4" and any(p >= n for r in H.bundled_revs(spec, base, tgt) for p in g[r]):
                 bfmt = "4"                                             # 0.8/0.9 have no notion of ghosts
@@ -349,7 +380,7 @@ def _hist_cases(rng, tier):
                 dfmt = "2a"
             yield {"k": "bundle", "h": spec, "base": base, "tgt": tgt, "bfmt": bfmt, "extra": extra,
                    "stream": rng.random() < 0.5, "dfmt": dfmt}
-        for base, tgt in pairs[:(4 if quick else 12)]:
+        for base, tgt in pairs[:(4 if quick else 8)]:
             bfmt = rng.choice(["4", "0.9"])
             yield {"k": "btamper", "h": spec, "base": base, "tgt": tgt, "bfmt": bfmt, "stream": rng.random() < 0.5,
                    "pos": rng.choice([rng.randrange(10 ** 6), rng.randrange(40), 10 ** 6 - 1 - rng.randrange(40)]),
